@@ -148,6 +148,8 @@ def harnesses(tier):
         out.append(json_commute(t))
         out.append(hashable(t))
     slots = cat.slot()
+    if tier == "thorough":
+        slots = slots[::3]  # thorough tier is sized by wall time (see DESIGN.md 7.1)
     if tier == "quick":
         slots = [t for i, t in enumerate(slots) if i % 8 == 4]
     big = 60 if tier == "quick" else 240
